@@ -43,6 +43,8 @@ func ListUniverse() *Universe {
 		[]string{"lpop", k}, []string{"rpop", k},
 		[]string{"lset", k, "0", "x"}, []string{"lset", k, "-1", "y"}, []string{"lset", k, "1", "z"}, []string{"lset", k, "5", "x"}, []string{"lset", k, "-5", "x"},
 		[]string{"ltrim", k, "0", "0"}, []string{"ltrim", k, "1", "-1"}, []string{"ltrim", k, "0", "-2"}, []string{"ltrim", k, "-1", "-1"}, []string{"ltrim", k, "2", "1"}, []string{"ltrim", k, "-100", "100"},
+		// a stop that equals the length, is one below it or one above it for the short lists of this universe
+		[]string{"ltrim", k, "0", "1"}, []string{"ltrim", k, "0", "2"}, []string{"ltrim", k, "1", "2"}, []string{"ltrim", k, "0", "3"},
 		[]string{"lclear", k})
 	return u
 }
